@@ -26,10 +26,10 @@ def sysprop(technique, text, ref, note=SYS_NOTE):
     return dict(technique=technique, text=text, note=note, ref=ref)
 
 CHECKS.update({
-    "C01": sysprop("Coq proof: (a) over all histories every PATCH avoids every cached node's CIDRs and every reserved block is fresh; (b) reservations (Held) are established by every write, avoided by every allocation and preserved by node, ClusterCIDR and foreign-release work items; (c) theorems over whole histories of one incarnation: without node deletion (invariant FInv, arbitrary schedules incl. relists and stale fetches) and with node deletion behind a well-behaved informer (invariant GInv: no two holders -- existing nodes or deleted nodes awaiting their notification -- ever overlap); tombstones/relists after deletion, deleting marks, pre-set CIDRs and restarts in (c) are monitored, not proved; + differential correspondence real controller/model on system histories + overlap monitor",
+    "C01": sysprop("Coq proof: (a) over all histories every PATCH avoids every cached node's CIDRs and every reserved block is fresh; (b) reservations (Held) are established by every write, avoided by every allocation and preserved by node, ClusterCIDR and foreign-release work items; (c) theorems over whole histories of one incarnation: without node deletion (invariant FInv, arbitrary schedules incl. relists and stale fetches) with node deletion behind a well-behaved informer (invariant GInv: no two holders -- existing nodes or deleted nodes awaiting their notification -- ever overlap), and across any number of restarts (invariant HInv: protection by reservation or by the node cache); tombstones/relists after deletion, deleting marks and pre-set CIDRs in (c) are monitored, not proved; + differential correspondence real controller/model on system histories + overlap monitor",
                    "Theorems (Properties/C01.v) quantify over every op list of Sys.v: user actions, deliveries, stale fetches, write outcomes, crashes/restarts, any ClusterCIDR population. The model is tied to the real NewMultiCIDRRangeAllocator/syncNode/syncClusterCIDR/handlers by running both on the same histories and comparing PATCHes, caches and API state; a monitor evaluates the property on the implementation's traces.",
                    "§5 C01"),
-    "C03": sysprop("Coq proof (new incarnation's state is a function of the API objects only; history theorems hold across Crash/Construct ops) + correspondence on histories with crashes and restarts + monitor",
+    "C03": sysprop("Coq proof (a crash keeps exactly the API objects; the new incarnation's state is a function of the API objects only; history theorem: across any number of restarts no incarnation assigns a CIDR overlapping what another holder holds) + correspondence on histories with crashes and restarts + monitor",
                    "Theorems (Properties/C03.v): a crash keeps exactly the API objects; construction depends on the API objects only; the all-history theorems include restarts. Correspondence compares the rebuilt pools and later writes of every incarnation.",
                    "§5 C03"),
     "C06": sysprop("Coq proof at call level (finalizer removed only when unassociated, never while a node is associated; writes change only the own finalizer; associations are recorded with every write and survive every work item other than the release of that node); world-level glue (releases only for gone/deleting nodes) monitored + correspondence on ClusterCIDR UPDATE requests + monitor (dependants by snapshot and by history of own writes)",
